@@ -199,4 +199,62 @@ theorem doctype_text_not_fixpoint :
 example : let ds := [Node.str .doctype (ofS "html"), .tag (tg "p") []]
     normaliseL livePCfg minimalHtml (normaliseL livePCfg minimalHtml ds) = normaliseL livePCfg minimalHtml ds := by decide
 
+/-- The second re-parse, for every representable forest whose normal form is representable again: it builds the
+    normal form of the normal form. So the second round trip is a fixpoint exactly when `normaliseL` is idempotent
+    at this forest — a decidable condition on executable definitions, evaluated by the driver on every case of the
+    correspondence run (field `norm2`) next to the real second re-parse. -/
+theorem second_roundtrip (p : PCfg) (f : Fmt) (ds : List Node) (h : Representable p f ds)
+    (h2 : Representable p f (normaliseL p f ds)) :
+    build p (emitRL f (build p (emitRL f ds))) = normaliseL p f (normaliseL p f ds) := by
+  rw [reparse_roundtrip p f ds h, reparse_roundtrip p f _ h2]
+
+theorem second_roundtrip_fixpoint_iff (p : PCfg) (f : Fmt) (ds : List Node) (h : Representable p f ds)
+    (h2 : Representable p f (normaliseL p f ds)) :
+    build p (emitRL f (build p (emitRL f ds))) = build p (emitRL f ds) ↔
+      normaliseL p f (normaliseL p f ds) = normaliseL p f ds := by
+  rw [second_roundtrip p f ds h h2, reparse_roundtrip p f ds h]
+
+example : let ds := [demo]
+    Representable livePCfg minimalHtml ds ∧ Representable livePCfg minimalHtml (normaliseL livePCfg minimalHtml ds) ∧
+    normaliseL livePCfg minimalHtml (normaliseL livePCfg minimalHtml ds) = normaliseL livePCfg minimalHtml ds := by decide
+
+/-- "whitespace-only runs normalise once": the whitespace rule of `endData` is idempotent, for every configuration -/
+theorem wsRule_idem (p : PCfg) (pres : Bool) (s : PStr) : wsRule p pres (wsRule p pres s) = wsRule p pres s := by
+  have h1 : wsRule p pres [10] = [10] := by
+    unfold wsRule; cases pres <;> simp
+  have h2 : wsRule p pres [32] = [32] := by
+    unfold wsRule; cases pres <;> simp
+  by_cases hc : (!pres && s.all fun c => p.asciiSpaces.contains c) = true
+  · have hs : wsRule p pres s = if s.contains 10 then [10] else [32] := by
+      unfold wsRule; rw [if_pos hc]
+    rw [hs]
+    split
+    · exact h1
+    · exact h2
+  · have hs : wsRule p pres s = s := by
+      unfold wsRule; rw [if_neg hc]
+    rw [hs, hs]
+
+example : wsRule livePCfg false (ofS " \t\n ") = ofS "\n" ∧ wsRule livePCfg true (ofS " \t\n ") = ofS " \t\n " ∧
+    wsRule livePCfg false [] = ofS " " := by decide
+
+/-- "adjacent text runs merge": however the tokenizer chunks a run of character data (at `&`, at buffer
+    boundaries), `endData` produces the same string object -/
+theorem txt_chunking (p : PCfg) (ctx : Ctx) (b : List PStr) (x y : PStr) :
+    txt p ctx (b ++ [x, y]) = txt p ctx (b ++ [x ++ y]) := by
+  have hc : ∀ (b : List PStr), concatL (b ++ [x, y]) = concatL (b ++ [x ++ y]) := by
+    intro b
+    induction b with
+    | nil => simp [concatL]
+    | cons a b ih => simp [concatL, ih]
+  cases b with
+  | nil => simp [txt, concatL]
+  | cons a b => simp only [List.cons_append, txt]; have := hc (a :: b); simp only [List.cons_append] at this; rw [this]
+
+/-! Stated, not proved (`normalise_idem`): for every forest without a `Doctype` node, for every configuration whose
+    string containers are text classes, `normaliseL p f (normaliseL p f ds) = normaliseL p f ds`
+    (needs: the normal form has no two adjacent text nodes; `wsRule_idem`; `sortAttrs` is idempotent;
+    `splitWs (joinSp (splitWs v)) = splitWs v`). With a `Doctype` it is false (`doctype_text_not_fixpoint`).
+    The executable statement is evaluated on every case of the correspondence run instead. -/
+
 end BS.Props.C05
